@@ -48,6 +48,10 @@ def make_dir(bse, rng, tmp, nbases, must=()):
     return d, idx
 
 
+def work_many(items):
+    return [work(it) for it in items]
+
+
 def read_archive(path, atype):
     members = []
     if atype == 'zip':
@@ -171,8 +175,29 @@ def run(ctx):
         for fmt, reffmt in pairs:
             for atype in ('zip', 'tbz'):
                 items.append((d, idx, fmt, reffmt, atype, tmp))
+    # generated directories (several versions per basis built from different components - some expressible in a format, some not -, notes,
+    # family notes, the same names with other references from one directory to the next), bundled one after the other in ONE process: what a
+    # bundle holds must not depend on the bundles made before it
+    import gendir
+    from basis_set_exchange import curate
+    gen_items = []
+    for i in range(ctx.n(3, 12)):
+        files, index, info = gendir.gen_dir(rng, nbases=3)
+        d = os.path.join(tmp, 'gd%d' % i)
+        os.makedirs(d)
+        gendir.write_dir(d, files, index)
+        try:
+            curate.create_metadata_file(os.path.join(d, 'METADATA.json'), d)
+        except Exception:
+            continue
+        idx = json.load(open(os.path.join(d, 'METADATA.json')))
+        for fmt, reffmt in [('crystal', 'bib'), ('nwchem', 'bib'), ('turbomole', 'txt'), (rng.choice(fmts_all), 'bib')]:
+            gen_items.append((d, idx, fmt, reffmt, rng.choice(['zip', 'tbz']), tmp))
     reqs, gots = [], []
-    for out in pmap(work, items):
+    outs = pmap(work, items)
+    if gen_items:
+        outs += pmap(work_many, [gen_items], nproc=2)[0] if len(gen_items) > 0 else []
+    for out in outs:
         R.ev(max(1, out['n']))
         R.count('archive:%s:%s' % (out['fmt'], out['atype']))
         for h in out['hashes']:
